@@ -231,6 +231,10 @@ def check_fallback(ctx, tp, info, drv):
     res = timesgen.real_times(ctx, tp, ctx.rng, sanitise=san)
     payload = dict(tp.describe(), info=dict(info, sanitise=san))
     n = len(res["raw"][0])
+    if n == 0:
+        # the line-number sanitiser (C11's subject) left no record at all: there is no line to return a time for
+        ctx.branches["fallback/no-line-left-after-sanitising"] += 1
+        return
     if res["kind"] != "times":
         ctx.violation("%s, line numbers %s, header %s: get_times() gave %s %s instead of one timestamp per line" % (
             tp.fmt, info["order"], info["header"], res["kind"], res.get("detail", "")), payload,
